@@ -713,7 +713,7 @@ def run(ctx):
             ctx.violation('SourceCatalog:does-not-terminate', 'reading the catalog properties did not return '
                           'within 30 s on a 9x9 image (the covariance is defined for every source)',
                           {'case': describe(c), 'cmd': 'bin/check C07 --replay <this file>'})
-            continue
+            break      # every further thin source would cost another 30 s; the check fails anyway
         cases.append(c)
         impl.append(rows)
         n_rows += len(rows)
